@@ -51,6 +51,27 @@ function plan (seed, run, tier) {
       const omap = anyChain && rng.chance(2, 3) ? rng.pick(['inline', 'external']) : null
       versions.push(genVersion(rng, fi, vi, kind, { file, omap, allowMsgAt, lookalikeLine: rng.chance(1, 5), bulk: run % 16 === 9 && fi === 0 && vi === 0, firstLine: rng.chance(1, 4), staleInline: rng.chance(1, 4) }))
     }
+    // the same transpiled code again after its original file was moved: identical mappings, other `sources`
+    const mi = versions.findIndex(v => v.kind === 'mod' && v.omap && v.omap.mode === 'inline')
+    if (mi >= 0 && rng.chance(1, 3)) {
+      const a = versions[mi]
+      const b = JSON.parse(JSON.stringify(a))
+      const mj = JSON.parse(a.omap.json)
+      mj.sources = mj.sources.map(x => x.replace(/([^/]+)$/, 'moved/$1'))
+      b.omap.json = JSON.stringify(mj)
+      const rootOf = (x) => mj.sourceRoot && !x.startsWith('/') ? mj.sourceRoot.replace(/\/$/, '') + '/' + x : x
+      const lastSrc = mj.sources[mj.sources.length - 1]
+      b.omap.source = rootOf(a.omap.split ? mj.sources[mj.sources.length - 2] : lastSrc)
+      b.omap.source2 = rootOf(lastSrc)
+      const tl = b.text.lastIndexOf('//# sourceMappingURL=data:application/json;base64,')
+      if (tl >= 0) {
+        b.text = b.text.slice(0, tl) + '//# sourceMappingURL=data:application/json;base64,' + Buffer.from(b.omap.json).toString('base64') + '\n'
+        b.vi = versions.length
+        b.cloneOf = mi
+        a.movedTwin = versions.length
+        versions.push(b)
+      }
+    }
     // files named by a URL are only ever loaded as they are (an ES module the rewriter never saw)
     files.push({ path: file, versions, rawOnly: file.startsWith('file:') })
   }
@@ -96,8 +117,15 @@ function plan (seed, run, tier) {
       ops.push({ op: 'LoadRaw', f, v: rng.below(files[f].versions.length) })
     } else if (k === 0) {
       const v = rng.below(files[f].versions.length)
-      ops.push({ op: 'Rewrite', rw: rng.below(cfgs.length), f, v })
+      const rwi = rng.below(cfgs.length)
+      ops.push({ op: 'Rewrite', rw: rwi, f, v })
       if (rng.chance(3, 4)) ops.push({ op: 'Load', f })
+      // ... and straight afterwards the twin whose original file moved
+      if (files[f].versions[v].movedTwin !== undefined && rng.chance(1, 2)) {
+        ops.push({ op: 'Rewrite', rw: rwi, f, v: files[f].versions[v].movedTwin })
+        ops.push({ op: 'Load', f })
+        ops.push({ op: 'Throw', f, site: rng.below(6), via: rng.pick(vias), cbf: rng.below(nFiles), cbsite: rng.below(6) })
+      }
     } else if (k === 1) ops.push(rng.chance(1, 3) ? { op: 'LoadRaw', f, v: rng.below(files[f].versions.length) } : { op: 'Load', f })
     else if (k === 2) ops.push({ op: 'Throw', f, site: rng.below(6), via: rng.pick(vias), cbf: rng.below(nFiles), cbsite: rng.below(6) })
     else if (k === 3) ops.push(rng.chance(1, 4) ? { op: 'CaptureObj' } : { op: 'SetHandler', kind: rng.pick(['none', 'user', 'undefined', 'same', 'fragile', 'fragile']) })
@@ -258,6 +286,7 @@ async function execute (plan, table) {
       firstAt = outLines.length - raw.length
     }
     const msgAt = siteKindOfThrow === 'msg-at'
+    const seenFns = new Set() // function names already met further in (recursive sites)
     raw.forEach((r0, i) => {
       let r = r0
       if (r0.isEval && isString) {
@@ -273,15 +302,24 @@ async function execute (plan, table) {
         const lx = L[fo.path]
         const ld = loaded[fo.path]
         if (r.fn === 'mkErr' && lx && ld && lx.status === 'modified' && ld.id === lx.id && plan.cfgs[lx.rw].chainSourceMap && fo.versions[ld.v].omap && fo.versions[ld.v].omap.gap > 0) st('probe:frame-in-unmapped-region-of-chained-map')
+        // the functions of a moved twin carry the names of the version it was cloned from
+        if (id && ld && fo.versions[ld.v] && fo.versions[ld.v].cloneOf === id.vi) id.vi = ld.v
         if (lx && ld && id && fo.versions[id.vi] && ld.v === id.vi) {
           const ver = fo.versions[id.vi]
           const site = ver.sites[id.k]
-          const siteLine = site ? (id.caller ? site.cbLine : (lineOverride && lineOverride.fn === site.fn ? lineOverride.line : site.line)) : 0
+          // a recursive site: the innermost frame is where the Error is created, the outer frames of the same
+          // function are at its recursive call (another original line of the same statement)
+          const outerRecursion = site && site.kind === 'recursive' && seenFns.has(r.fn)
+          seenFns.add(r.fn)
+          const siteLine = site ? (id.caller || outerRecursion ? site.cbLine : (lineOverride && lineOverride.fn === site.fn ? lineOverride.line : site.line)) : 0
           const cfgL = plan.cfgs[lx.rw]
           // the original map covers the file from (0-based) line `gap` on: 1-based line L is unmapped iff L <= gap
-          const unmapped = cfgL.chainSourceMap && ver.omap && siteLine > 0 && siteLine <= (ver.omap.gap || 0)
+          const inHole = ver.omap && ver.omap.hole && siteLine - 1 >= ver.omap.hole[0] && siteLine - 1 < ver.omap.hole[1]
+          const unmapped = cfgL.chainSourceMap && ver.omap && siteLine > 0 && (siteLine <= (ver.omap.gap || 0) || inHole)
           if (unmapped && ld.id === lx.id && lx.status === 'modified') {
-            why = 'position in a region the original map does not cover: no positional expectation'
+            // no original location: the position is reported as it is (it must not inherit a neighbour's)
+            exp = { path: r.file, line: r.line }
+            why = 'position in a region the original map does not cover (or covers with source-less segments): reported unchanged'
             st('probe:frame-in-unmapped-region-of-chained-map')
           } else if (ld.id === lx.id && lx.status === 'modified' && ld.rewritten && siteLine) {
             exp = expectedFor(fo, ver, siteLine, plan.cfgs[lx.rw]); why = 'latest rewrite is modified and is the running code'
